@@ -98,6 +98,20 @@ CHECKS = {
              "reproduction orders 2..6 (quick) / 2..8 (thorough). Outside: centimetre accuracy for smooth orbits (analysis), "
              "bit-precise exactness in binary64, orders above the bound.",
         ref="DESIGN.md section 3 C09", technique=TECH),
+    "C10": dict(
+        text="Speaker.listen, Speaker._bisect, Listener.check/clear, the label logic of the station/node listeners, "
+             "AnomalyListener._diff and the event stream of AnalyticalPropagator.iter are executed with the watched quantity of each "
+             "listener an uninterpreted function g_l(instant) and dates on the exact-real Date model: after clear() the first sample "
+             "is silent (for an arbitrary earlier history); at the next sample an event is returned for exactly the listeners whose "
+             "g_l changed sign (1..2 quick / 3 thorough simultaneous listeners), in chronological order, and every prev is updated; "
+             "one bisection step from an arbitrary bracket probes the midpoint and keeps a half bracket on which g still changes "
+             "sign, and every explored exit of the real loop returns a labelled state inside the bracket; AOS iff rising, Desc Node "
+             "iff falling, MAX only above the horizon and not rising; the anomaly difference is wrapped into [-pi, pi) modulo 2 pi; "
+             "the iteration stream (samples + events between them) is chronological and contains every sample.",
+        note="Trusted: z3; uninterpreted watched quantities (the statement is about any quantity). Timedelta halving exact "
+             "(microsecond rounding outside). Outside: closed-form Keplerian event times, shadow geometry and its 0.01 s/0.5 s "
+             "timing, visibility-stream filter of TopocentricFrame.visibility.",
+        ref="DESIGN.md section 3 C10", technique=TECH),
     "C11": dict(
         text="create_station, _geodetic_to_cartesian, TopocentricOrientation, Center/Orientation.convert_to, Frame.transform, the "
              "spherical form and the Range/Azimut/Elevation/Doppler measures are executed symbolically end to end: proved for every "
